@@ -60,6 +60,26 @@ def _param_of_expr(e: ast.AST, params: Set[str]) -> Optional[str]:
     return None
 
 
+def _truthiness_default(e: ast.AST, params: Set[str]):
+    """(parameter, default text) when `e` is `p or Ctor(..)` / `p if p else Ctor(..)` /
+    `Ctor(..) if not p else p`: the default object is chosen by the truth value of p"""
+    def ctor(x):
+        return isinstance(x, ast.Call) and (src_of(x.func).split(".")[-1][:1].isupper())
+
+    if isinstance(e, ast.BoolOp) and isinstance(e.op, ast.Or) and len(e.values) == 2 and isinstance(e.values[0], ast.Name) and e.values[0].id in params and ctor(e.values[1]):
+        return e.values[0].id, src_of(e.values[1])
+    if isinstance(e, ast.IfExp):
+        t = e.test
+        neg = False
+        while isinstance(t, ast.UnaryOp) and isinstance(t.op, ast.Not):
+            t, neg = t.operand, not neg
+        if isinstance(t, ast.Name) and t.id in params:
+            keep, dflt = (e.orelse, e.body) if neg else (e.body, e.orelse)
+            if isinstance(keep, ast.Name) and keep.id == t.id and ctor(dflt):
+                return t.id, src_of(dflt)
+    return None
+
+
 def init_stores(repo, ci: ClassInfo, _stack=()) -> Dict[str, Set[str]]:
     """param -> attribute names under which it is stored on EVERY normal path
     of the class's __init__ (through parent constructors)."""
@@ -280,10 +300,16 @@ def check_a(ck, repo):
                     + (f" (only on some paths: {somewhere})" if somewhere else " (never stored)")
                     + "; get_params()/clone() read self." + p,
                 )
+        pset = set(params)
         if custom:
+            # whatever the protocol, a default object is chosen by `p is None`, not by p's truth value
+            for n in own_nodes(init.node):
+                if isinstance(n, ast.Assign):
+                    tv = _truthiness_default(n.value, pset)
+                    if tv is not None:
+                        ck.violated("C01.a", init, n, f"the default of '{tv[0]}' is chosen by the truth value of the parameter ({src_of(n.value)[:60]}), not by `{tv[0]} is None`: an estimator with __len__ (every scikit-learn ensemble or pipeline) raises or is empty before fit, so the caller's object is refused or silently replaced by {tv[1]} and get_params/clone report another estimator than the one passed")
             continue
         # value preservation (only where sklearn's introspective protocol applies)
-        pset = set(params)
         for n in own_nodes(init.node):
             if isinstance(n, (ast.Assign, ast.AugAssign)):
                 for t in _name_targets(n):
@@ -298,6 +324,10 @@ def check_a(ck, repo):
                     elif is_self_attr(t) and t.attr in pset:
                         v = n.value
                         p = _param_of_expr(v, pset) if not isinstance(n, ast.AugAssign) else None
+                        tv = _truthiness_default(v, pset) if not isinstance(n, ast.AugAssign) else None
+                        if tv is not None:
+                            ck.violated("C01.a", init, n, f"the default of '{tv[0]}' is chosen by the truth value of the parameter ({src_of(v)[:60]}), not by `{tv[0]} is None`: an estimator with __len__ (every scikit-learn ensemble or pipeline) raises or is empty before fit, so the caller's object is refused or silently replaced by {tv[1]} and get_params/clone report another estimator than the one passed")
+                            continue
                         if p == t.attr:
                             continue
                         tests = enclosing_tests(n, init.node)
